@@ -63,7 +63,9 @@ PAIRS = [
     ({"type": "any"}, 1), ({"type": [{"type": "string"}, "null"]}, 1), ({"maxProperties": 0}, {"a": 1}),
     ({"id": "http://base.example/root.json", "$id": "http://other.example/dir/root.json", "items": {"$ref": "doc.json"}}, [1, "s"]),
     ({"type": "integer", "maximum": 3, "exclusiveMaximum": True}, 3.0), ({"enum": [1]}, 1), ({"type": "string"}, "s"),
-    (True, 1), (False, 1),
+    (True, 1), (False, 1), (12, 1), ([], 1), ("s", 1), (None, 1), ([{"$schema": "x"}], 1),
+    # schemas the selected class's check_schema rejects for their id (it is looked at before anything else happens)
+    ({"id": 12, "$id": 12, "type": "string"}, 1), ({"$id": ["x"], "id": ["x"]}, {}), ({"id": None, "$id": None, "properties": {"a": {"$id": 5, "id": 5}}}, {"a": 1}),
     # several failures at once, a boolean `false` subschema (its error names no keyword) among them
     ({"properties": {"a": False, "b": {"type": "string"}}}, {"a": 1, "b": 1}), ({"items": [False, {"type": "null"}]}, [1, 1]),
     ({"anyOf": [False, {"type": "string"}, {"properties": {"a": False}}]}, {"a": 1}), ({"additionalProperties": False, "required": ["z"], "minProperties": 3}, {"a": 1}),
@@ -168,7 +170,31 @@ def check_dispatch(rec, rng, registered, history, scratch, future=()):
     """registered: own table {id-without-#: class}."""
     latest = impl.CLS[7]
     for frag, inst in PAIRS:
+        if not isinstance(frag, (bool, dict)):
+            # not an object: nothing can be declared, the latest draft decides (and rejects it); an explicit class decides
+            rec.count("cases")
+            rec.case([history, frag, inst])
+            want = expected_outcome(latest, frag, inst)
+            have = outcome(lambda: jsonschema.validate(inst, frag))
+            rec.count("validate_checked")
+            if want != have:
+                rec.violation("validate-dispatch", {"history": history, "schema": frag, "instance": inst}, "validate gives %r, the latest draft %r" % (have, want))
+            for dd in impl.DRAFTS:
+                want = expected_outcome(impl.CLS[dd], frag, inst)
+                have = outcome(lambda: jsonschema.validate(inst, frag, cls=impl.CLS[dd]))
+                rec.count("explicit_cls_checked")
+                if want != have:
+                    rec.violation("explicit-class-does-not-win", {"history": history, "schema": frag, "instance": inst, "cls": dd},
+                                  "cls=Draft%dValidator: validate gives %r, that class %r" % (dd, have, want))
+            continue
         if isinstance(frag, bool):
+            for dd in impl.DRAFTS:
+                want = expected_outcome(impl.CLS[dd], frag, inst)
+                have = outcome(lambda: jsonschema.validate(inst, frag, cls=impl.CLS[dd]))
+                rec.count("explicit_cls_checked")
+                if want != have:
+                    rec.violation("explicit-class-does-not-win", {"history": history, "schema": frag, "instance": inst, "cls": dd},
+                                  "cls=Draft%dValidator with a boolean schema: validate gives %r, that class %r" % (dd, have, want))
             rec.count("spelling:boolean-schema")
             rec.count("cases")
             rec.case([history, frag, inst])
